@@ -335,3 +335,14 @@ MUTANTS = [
 ENGINES = ['model', 'dsf', 'paths', 'terms']
 TECHNIQUE = ('static analysis: derived-state freshness dataflow, who-may-write, validate-before-store, flag-domain path '
              'interpretation of the small-distance policy, term normal forms for unit discipline and inverse pairs')
+
+
+def sweep(overlay):
+    from ..dsf import dsf_sweep
+    from ..selftest import sweep_lines
+    out = dsf_sweep(overlay, PATHLOSS_FS, 'C13')
+    import re
+    for q in ('PathLossOkomuraHata.fc@setter', 'PathLossOkomuraHata.hbs@setter', 'PathLossOkomuraHata.hms@setter',
+              'PathLossOkomuraHata.area_type@setter', 'PathLossBase.calc_path_loss_dB'):
+        out += sweep_lines(overlay, PL, q, lambda t: t.startswith('raise ') or re.match(r'^PL(\[.*\])? = 0', t) is not None, 'C13')
+    return out
